@@ -89,6 +89,22 @@ def resJson (r : Except Err Xml) : Json :=
   | .ok x => Json.mkObj [("xml", jsonOfXml x)]
   | .error e => Json.mkObj [("exc", Json.str e.name)]
 
+def callOfJson (j : Json) : Call :=
+  match getStr j "op" with
+  | "convert" => .convert (getStr j "text") (getStr j "root")
+  | "rewrite" => .rewrite (xmlOfJson (j.getObjValD "tree")) (getStr j "prefix")
+  | _ => .pure
+
+def jsonOfOutcome : Outcome → Json
+  | .doc r => resJson r
+  | .rewritten x m => Json.mkObj [("tree", jsonOfXml x), ("mapping", Json.arr (m.map fun (a, b) => Json.arr #[.str a, .str b]).toArray)]
+  | .nothing => Json.mkObj []
+
+def handleHistory (j : Json) : Json :=
+  let calls := match j.getObjValD "calls" with | .arr a => a.toList.map callOfJson | _ => []
+  let (outs, _) := runCalls (urisOf j) (getStr j "prefix") {} calls
+  Json.mkObj [("outs", Json.arr (outs.map jsonOfOutcome).toArray)]
+
 def grammarOf (name : String) : Grammar :=
   match name with
   | "compiled" => aknCompiled
@@ -117,6 +133,7 @@ def handle (j : Json) : Json :=
       Json.mkObj [("tree", jsonOfXml x), ("mapping", Json.arr (m.map fun (a, b) => Json.arr #[.str a, .str b]).toArray)]
   | "cleannum" => Json.mkObj [("out", Json.str (cleanNum (getStr j "num")))]
   | "convert" => resJson (convert (urisOf j) (getStr j "prefix") (getStr j "text") (getStr j "root"))
+  | "history" => handleHistory j
   | "todict" => handleToDict j
   | "preparse" => Json.mkObj [("out", Json.str (String.ofList (preParse (getNat j "n") (getStr j "text").toList)))]
   | op => Json.mkObj [("error", Json.str s!"unknown-op: {op}")]
